@@ -49,7 +49,7 @@ func genRace(t *rapid.T) raceCase {
 			if rapid.IntRange(0, 2).Draw(t, "sharedkey") != 0 {
 				key = pool[rapid.IntRange(0, 1).Draw(t, "poolidx")]
 			}
-			switch rapid.SampledFrom([]string{"decode", "decode", "mic", "crypt", "lookup", "register", "register", "band", "yield"}).Draw(t, "op") {
+			switch rapid.SampledFrom([]string{"decode", "decode", "mic", "crypt", "lookup", "register", "register", "band", "netid", "yield"}).Draw(t, "op") {
 			case "decode":
 				l = append(l, raceOp{Op: "decode", Frame: gen.AnyFrame(t).Encode()})
 			case "mic":
@@ -63,6 +63,8 @@ func genRace(t *rapid.T) raceCase {
 				l = append(l, raceOp{Op: "register", CID: 0x80 + byte(g)*8 + byte(rapid.IntRange(0, 7).Draw(t, "pc")), Size: rapid.IntRange(1, 9).Draw(t, "size"), Uplink: rapid.Bool().Draw(t, "up")})
 			case "band":
 				l = append(l, raceOp{Op: "band", Band: string(rapid.SampledFrom(bandNames).Draw(t, "band"))})
+			case "netid":
+				l = append(l, raceOp{Op: "netid", Key: key[:]})
 			default:
 				l = append(l, raceOp{Op: "yield"})
 			}
@@ -119,6 +121,12 @@ func runList(l []raceOp) []string {
 			e4 := p.DecryptFRMPayload(k)
 			b2, _ := p.MarshalBinary()
 			out = append(out, fmt.Sprintf("crypt %v %v %x %v %v %x", e1, e2, b, e3, e4, b2))
+		case "netid":
+			n := lorawan.NetID{o.Key[0], o.Key[1], o.Key[2]}
+			a := lorawan.DevAddr{o.Key[3], o.Key[4], o.Key[5], o.Key[6]}
+			id := n.ID()
+			a.SetAddrPrefix(n)
+			out = append(out, fmt.Sprintf("netid %d %x %s %v %x %x", n.Type(), id, a, a.IsNetID(n), a.NwkID(), n.ID()))
 		case "lookup":
 			p, size, err := lorawan.GetMACPayloadAndSize(o.Uplink, lorawan.CID(o.CID))
 			out = append(out, fmt.Sprintf("lookup %T %d %v", p, size, err))
@@ -182,6 +190,6 @@ func TestRace(t *testing.T) {
 	r := evid.Begin(t, "C10")
 	defer r.Finish()
 	evid.Rapid(r, t, "race-oplists",
-		"rapid, -race build: 2..8 goroutines each run a generated list of 3..14 operations (decode + command decode, set/validate MIC, encrypt/decrypt - two thirds of them with one of two key VALUES shared by all goroutines -, GetMACPayloadAndSize, RegisterProprietaryMACCommand on goroutine-owned CIDs, band GetConfig + mutations on a local instance, yields) started together; each goroutine's results must equal the same list run alone, and any race-detector report in the process output is reported as a violation by the driver (the detector flags an unsynchronised access pair whenever both execute, not only when they collide). Non-trivial: at least one registration concurrent with a decode.",
+		"rapid, -race build: 2..8 goroutines each run a generated list of 3..14 operations (decode + command decode, set/validate MIC, encrypt/decrypt - two thirds of them with one of two key VALUES shared by all goroutines -, GetMACPayloadAndSize, RegisterProprietaryMACCommand on goroutine-owned CIDs, NetID / DevAddr prefix algebra, band GetConfig + mutations on a local instance, yields) started together; each goroutine's results must equal the same list run alone, and any race-detector report in the process output is reported as a violation by the driver (the detector flags an unsynchronised access pair whenever both execute, not only when they collide). Non-trivial: at least one registration concurrent with a decode.",
 		1500, 60000, genRace, checkRace)
 }
